@@ -195,9 +195,9 @@ class AstToSqlVisitor(visitor.NodeVisitor):
         comparator = self.visit(node.comparator)
 
         # In case of a subexpression, wrap it in parentheses
-        if isinstance(node.left, (ast.BoolOp, ast.Compare)):
+        if isinstance(node.left, (ast.BoolOp, ast.Compare, ast.UnaryOp)):
             left = f"({left})"
-        if isinstance(node.right, (ast.BoolOp, ast.Compare)):
+        if isinstance(node.right, (ast.BoolOp, ast.Compare, ast.UnaryOp)):
             right = f"({right})"
 
         #  'eq/ne null' should become 'IS (NOT) NULL' instead of '(!)= NULL'
